@@ -979,12 +979,16 @@ package rux
 //@ extern strings.SplitN(s, sep, n) (parts)
 //@   requires len(sep) > 0
 //@   ensures len(parts) >= 1 && len(parts) <= max(n, 1)
+//@   ensures parts[0] == uf("splitn.first", string, s, sep)
+//@ spec rpN(rp *strings.Replacer) int = uf("replacer.n", int, rp)
+//@ spec rpAt(rp *strings.Replacer, i int) string = uf("replacer.at", string, rp, i)
 //@ extern strings.NewReplacer(oldnew) (rp)
 //@   panics *
-//@   ensures rp != nil
+//@   ensures rp != nil && fresh(rp) && rpN(rp) == len(oldnew) && (forall i int :: 0 <= i && i < len(oldnew) ==> rpAt(rp, i) == oldnew[i])
 //@ extern (*strings.Replacer).Replace(rp, s) (out)
 //@   requires rp != nil
 //@   pure
+//@   ensures out == uf("replacer.replace", string, rp, s)
 //@ extern strings.Replace(s, old, new, n) (out)
 //@   pure
 //@ extern strings.Count(s, substr) (n)
@@ -1620,3 +1624,82 @@ package rux
 //@   ensures[C06] every_method: len(cast(regAt(r, old(regCount(r))), *Route).methods) == 9
 //@       && (forall j int :: 0 <= j && j < 9 ==> cast(regAt(r, old(regCount(r))), *Route).methods[j] == anyMethods[j])
 //@   ensures[C04] group_then_own_middleware: chainIs(r, cast(regAt(r, old(regCount(r))), *Route), middles)
+
+// ---------------------------------------------------------------------------
+// URL building (C15): Route.ToURL routes its arguments to BuildRequestURL.Build, Build classifies the keys of the
+// parameter map and substitutes the variables. What strings.Replacer and url.Values.Encode produce is
+// outside the contracts (bounded stand-in `urlround`).
+//
+//@ ghost builtOn(ref) ref
+//@ ghost builtPath(ref) string
+//@ ghost builtWith(ref) M
+//@ spec gstr(v any) string = uf("goutil.String", string, v)
+//@ extern github.com/gookit/goutil.String(v) (s)
+//@   pure
+//@   ensures s == gstr(v)
+//@ extern (net/url.Values).Add(v, key, value)
+//@   panics *
+//@   modifies entries(v)
+//@   ensures key in v && len(v[key]) == old(len(v[key])) + 1 && v[key][len(v[key]) - 1] == value
+//@   ensures forall k string :: k != key ==> (k in v) == old(k in v) && v[k] == old(v[k])
+//@ extern (net/url.Values).Encode(v) (s)
+//@   pure
+//
+//@ spec isVarKey(k string) bool = indexof(k, "{") != -1 || indexof(k, "}") != -1
+//@ spec inner(v string) string = substr(v, 1, len(v) - 2)
+//@ spec varName(v string) string = indexof(inner(v), ":") > 0 ? "{" ++ uf("trimspace", string, uf("splitn.first", string, inner(v), ":")) ++ "}" : v
+//@ func (*BuildRequestURL).Build [C15]
+//@   requires b != nil && varRegex != nil
+//@   requires argument_map_is_not_the_builders: len(withParams) > 0 ==> withParams[0] == nil || withParams[0] != b.params
+//@   panics *
+//@   modifies entries(b.params), entries(b.queries), builtOn(_), builtPath(_), builtWith(_)
+//@   ghostset builtOn(result) = b
+//@   ghostset builtPath(result) = b.path
+//@   ghostset builtWith(result) = len(withParams) > 0 ? withParams[0] : nil
+//@   ensures fresh_url: result != nil && fresh(result)
+//@   ensures[C15] built_record: builtOn(result) == b && builtPath(result) == b.path && builtWith(result) == (len(withParams) > 0 ? withParams[0] : nil)
+//@       && b.path == old(b.path)
+//@   ensures[C15] location_is_the_builders: result.Scheme == b.scheme && result.Host == b.host && result.User == b.user
+//@   ensures[C15] non_variable_arguments_become_query_values: len(withParams) > 0 ==> (forall x string :: x in withParams[0] && !isVarKey(x) ==>
+//@       x in b.queries && len(b.queries[x]) >= 1 && b.queries[x][len(b.queries[x]) - 1] == gstr(withParams[0][x]))
+//@   ensures[C15] variable_arguments_become_parameters: len(withParams) > 0 ==> (forall x string :: x in withParams[0] && isVarKey(x) ==>
+//@       x in b.params && b.params[x] == iface(gstr(withParams[0][x]), string))
+//@   ensures[C15] other_parameters_kept: forall x string :: !(len(withParams) > 0 && x in withParams[0]) ==> (x in b.params) == old(x in b.params) && b.params[x] == old(b.params[x])
+//@   ensures[C15] path_without_variables_is_kept: len($call_FindAllString_0) == 0 ==> result.Path == b.path
+//@   ensures[C15] variables_are_substituted_in_one_pass: len($call_FindAllString_0) > 0 ==> result.Path == uf("replacer.replace", string, $call_NewReplacer_0, b.path)
+//@       && rpN($call_NewReplacer_0) == 2 * len($makemap0)
+//@   ensures[C15] every_occurrence_is_keyed_by_its_name: len($call_FindAllString_0) > 0 ==> (forall j int :: 0 <= j && j < len($call_FindAllString_0) ==>
+//@       $call_FindAllString_0[j] in $makemap0 && $makemap0[$call_FindAllString_0[j]] == varName($call_FindAllString_0[j]))
+//@   ensures[C15] every_pair_replaces_an_occurrence_by_its_parameter: len($call_FindAllString_0) > 0 ==> (forall q int :: 0 <= q && 2 * q + 1 < rpN($call_NewReplacer_0) ==>
+//@       rpAt($call_NewReplacer_0, 2 * q) in $makemap0 && rpAt($call_NewReplacer_0, 2 * q + 1) == gstr(b.params[$makemap0[rpAt($call_NewReplacer_0, 2 * q)]]))
+//@ loop (*BuildRequestURL).Build #0
+//@   invariant 0 <= iterpos && iterpos <= itercard
+//@   invariant forall x string :: iterdom(x) && iterord(x) < iterpos && !isVarKey(x) ==> x in b.queries && len(b.queries[x]) >= 1 && b.queries[x][len(b.queries[x]) - 1] == gstr(withParams[0][x])
+//@   invariant forall x string :: iterdom(x) && iterord(x) < iterpos && isVarKey(x) ==> x in b.params && b.params[x] == iface(gstr(withParams[0][x]), string)
+//@   invariant forall x string :: !(x in withParams[0]) ==> (x in b.params) == old(x in b.params) && b.params[x] == old(b.params[x])
+//@ loop (*BuildRequestURL).Build #1
+//@   vars rangeindex
+//@   invariant -1 <= rangeindex && $makemap0 != nil && fresh($makemap0)
+//@   invariant forall j int :: 0 <= j && j <= rangeindex ==> $call_FindAllString_0[j] in $makemap0 && $makemap0[$call_FindAllString_0[j]] == varName($call_FindAllString_0[j])
+//@ loop (*BuildRequestURL).Build #2
+//@   vars oldNews
+//@   invariant 0 <= iterpos && iterpos <= itercard && len(oldNews) == 2 * iterpos && (arr(oldNews) == nil || fresh(arr(oldNews))) && (arr(oldNews) == nil || arr(oldNews) != arr($call_FindAllString_0))
+//@   invariant forall q int :: 0 <= q && q < iterpos ==> oldNews[2 * q] == iterkey(q) && oldNews[2 * q + 1] == gstr(b.params[$makemap0[iterkey(q)]])
+//@   invariant forall j int :: 0 <= j && j < len($call_FindAllString_0) ==> $call_FindAllString_0[j] in $makemap0 && $makemap0[$call_FindAllString_0[j]] == varName($call_FindAllString_0[j])
+//
+//@ func (*Route).ToURL [C15]
+//@   requires r != nil && varRegex != nil
+//@   panics *
+//@   modifies BuildRequestURL.path, builtOn(_), builtPath(_), builtWith(_), allentries(M), allentries(url.Values)
+//@   ensures[C15] path_is_the_routes: result != nil && builtPath(result) == r.path
+//@   ensures[C15] without_arguments: len(buildArgs) == 0 ==> fresh(builtOn(result)) && builtWith(result) == nil
+//@   ensures[C15] callers_builder_is_used: len(buildArgs) == 1 && hastype(buildArgs[0], *BuildRequestURL) ==> builtOn(result) == cast(buildArgs[0], *BuildRequestURL)
+//@   ensures[C15] callers_map_is_used: len(buildArgs) == 1 && hastype(buildArgs[0], M) ==> fresh(builtOn(result)) && builtWith(result) == cast(buildArgs[0], M)
+//@   ensures[C15] accepted_argument_shapes: len(buildArgs) == 1 ==> hastype(buildArgs[0], *BuildRequestURL) || hastype(buildArgs[0], M)
+//@   ensures[C15] pairs_come_in_twos: len(buildArgs) % 2 == 0 || len(buildArgs) == 1
+//@   ensures[C15] pairs_are_used: len(buildArgs) > 1 ==> fresh(builtOn(result)) && builtWith(result) != nil
+//@       && (forall j int :: 0 <= j && j < len(buildArgs) && j % 2 == 0 ==> gstr(buildArgs[j]) in builtWith(result))
+//@ loop (*Route).ToURL #0
+//@   vars i
+//@   invariant 0 <= i && i <= len(buildArgs) && i % 2 == 0 && len(buildArgs) % 2 == 0 && $makemap0 != nil && fresh($makemap0)
+//@   invariant forall j int :: 0 <= j && j < i && j % 2 == 0 ==> gstr(buildArgs[j]) in $makemap0
